@@ -602,6 +602,91 @@ def check_special_systems(res, which, builder):
         res.violation("C04|%s|special-system|%s|raises" % ("get_odesys" if builder == "get" else "_create_odesys", which), "%s on the %s system raised %s: %s" % (builder, which, type(e).__name__, e), case, "EXC %s" % type(e).__name__, None)
 
 
+def check_large(res, variant, builder):
+    """the 13-substance, 16-20-reaction system of C03's layer BIG (a hub substance in up to 17 reactions, autocatalysis, inactive
+    parts) through both builders: one equation per substance in substance order, equal to N^T r"""
+    import sympy
+    from chempy import Reaction, ReactionSystem
+    from chempy.kinetics.ode import get_odesys, _create_odesys
+    from mc.checks import c03
+
+    rts = c03._big_system(variant)
+    S = list(c03.BIG_S)
+    primes = [101, 103, 107, 109, 113, 127, 131, 137, 139, 149, 151, 157, 163]
+    conc = dict(zip(S, primes))
+    case = dict(layer="H", what="large", variant=variant, builder=builder)
+    res.states += 1
+    res.transitions += len(rts)
+    res.nontrivial += 1
+    res.evaluations += 1
+    try:
+        rxns, ks, kvals = [], [], {}
+        for j, rt in enumerate(rts):
+            reac, prod, ir, ip = M.rt_dicts(rt)
+            k = 200 + 3 * j
+            nm = "q%02d" % j
+            kvals[nm] = k
+            rxns.append(Reaction(reac, prod, k if builder == "get" else nm, inact_reac=ir or None, inact_prod=ip or None))
+            ks.append(k)
+        order = S if variant == 0 else S[::-1]
+        rsys = ReactionSystem(rxns, order)
+        odesys = (get_odesys(rsys, include_params=True) if builder == "get" else _create_odesys(rsys))[0]
+        bind = {d: conc[n] for d, n in zip(odesys.dep, odesys.names)}
+        for sym, pn in zip(odesys.params, odesys.param_names):
+            bind[sym] = kvals.get(pn, sympy.Symbol("UNBOUND_" + str(pn)))
+        got = [sympy.sympify(e).subs(bind) for e in odesys.exprs]
+        model = M.system_rates(rts, ks, conc, order)
+        exp = [model[n] for n in order]
+        ok = list(odesys.names) == list(order) and [sympy.sympify(g) - e for g, e in zip(got, exp)] == [0] * len(exp)
+        res.outcomes["large-ok" if ok else "large-WRONG"] += 1
+        if not ok:
+            res.violation("C04|%s|large-system|rhs-value" % ("get_odesys" if builder == "get" else "_create_odesys"), "%s on the %d-reaction, %d-substance system (variant %d): names %r, f = %r, N^T r = %r" % (
+                builder, len(rts), len(S), variant, list(odesys.names), [str(g) for g in got], [str(e) for e in exp]), case, [str(g) for g in got], [str(e) for e in exp])
+    except Exception as e:
+        res.outcomes["large-raises:%s" % type(e).__name__] += 1
+        res.violation("C04|%s|large-system|raises" % builder, "%s on the large system (variant %d) raised %s: %s" % (builder, variant, type(e).__name__, e), case, "EXC %s" % type(e).__name__, None)
+
+
+def check_expanded_equilibrium(res, builder, which):
+    """an equilibrium with an inactive species expanded into its forward and backward reactions (as_reactions), then built: the
+    inactive species is consumed by the forward and released by the backward reaction (its net coefficient changes sign)"""
+    import sympy
+    from chempy import Equilibrium, ReactionSystem
+    from chempy.kinetics.ode import get_odesys, _create_odesys
+
+    case = dict(layer="H", what="expanded-equilibrium", builder=builder, which=which)
+    res.states += 1
+    res.transitions += 2
+    res.nontrivial += 1
+    res.evaluations += 1
+    conc = {"A": 5, "B": 7, "C": 11, "S": 13}
+    kf, K = 6, 3
+    try:
+        kw = dict(inact_reac={"S": 1}) if which == "inactive-reactant" else dict(inact_prod={"S": 2})
+        eq = Equilibrium({"A": 1, "B": 1}, {"C": 1}, K, **kw)
+        fw, bw = eq.as_reactions(kf=kf)
+        if builder == "create":
+            fw.param, bw.param = "kfw", "kbw"
+        rsys = ReactionSystem([fw, bw], "A B C S")
+        odesys = (get_odesys(rsys, include_params=True) if builder == "get" else _create_odesys(rsys))[0]
+        bind = {d: conc[n] for d, n in zip(odesys.dep, odesys.names)}
+        kb = sympy.Rational(kf, K)
+        for sym, pn in zip(odesys.params, odesys.param_names):
+            bind[sym] = {"kfw": kf, "kbw": kb}.get(pn, sympy.Symbol("UNBOUND_" + str(pn)))
+        got = {n: sympy.nsimplify(sympy.sympify(e).subs(bind)) for n, e in zip(odesys.names, odesys.exprs)}
+        rf, rb = kf * conc["A"] * conc["B"], kb * conc["C"]
+        nS = -1 if which == "inactive-reactant" else 2
+        exp = {"A": -rf + rb, "B": -rf + rb, "C": rf - rb, "S": nS * (rf - rb)}
+        ok = all(sympy.simplify(got[n] - exp[n]) == 0 for n in exp)
+        res.outcomes["expanded-equilibrium-ok" if ok else "expanded-equilibrium-WRONG"] += 1
+        if not ok:
+            res.violation("C04|%s|expanded-equilibrium|rhs-value" % ("get_odesys" if builder == "get" else "_create_odesys"), "A + B = C with %s S, as_reactions(kf=%d) then %s: f = %s, forward minus backward gives %s" % (
+                which, kf, builder, {k: str(v) for k, v in got.items()}, {k: str(v) for k, v in exp.items()}), case, {k: str(v) for k, v in got.items()}, {k: str(v) for k, v in exp.items()})
+    except Exception as e:
+        res.outcomes["expanded-equilibrium-raises:%s" % type(e).__name__] += 1
+        res.violation("C04|%s|expanded-equilibrium|raises" % builder, "%s, %s raised %s: %s" % (which, builder, type(e).__name__, e), case, "EXC %s" % type(e).__name__, None)
+
+
 def check_partial_names(res, kind, nnamed):
     """rate expressions with several arguments of which only the leading `nnamed` carry names (unique_keys is aligned with
     the beginning of args): kept as free parameters, exactly the named ones become parameters (defaults: the written values)
@@ -663,6 +748,13 @@ def run_chunk(chunk, tier):
     t = _tier(tier)
     if chunk[0] == "H":
         i = chunk[1]
+        if i == 3:
+            for variant in (0, 1):
+                for builder in ("get", "create"):
+                    check_large(res, variant, builder)
+            for which in ("inactive-reactant", "inactive-product"):
+                for builder in ("get", "create"):
+                    check_expanded_equilibrium(res, builder, which)
         if i == 2:
             for which in ("order1/2", "order3/2", "order0.5", "time-key"):
                 for builder in ("get", "create"):
@@ -713,6 +805,10 @@ def replay(case):
             check_symbols(res, tuple(case["idxs"]), tuple(case["perm"]))
         elif case.get("what") == "constants":
             check_constant_priority(res, case["which"])
+        elif case.get("what") == "large":
+            check_large(res, case["variant"], case["builder"])
+        elif case.get("what") == "expanded-equilibrium":
+            check_expanded_equilibrium(res, case["builder"], case["which"])
         elif case.get("what") == "special":
             check_special_systems(res, case["which"], case["builder"])
         elif case.get("what") == "partial-names":
